@@ -106,6 +106,11 @@ Theorem C39_spec_machine_is_map :
      strictly_sorted (CorrC39.m_of ls) = true /\ forall k, CorrC39.lookup (CorrC39.m_of ls) k = CorrC39.lookup ls k).
 Proof. exact spec_machine_is_map. Qed.
 
+(* symbol-table rebuild = identity on every label set, in every build's model *)
+Theorem C39_rebuild_symbol_table_id : forall ls, all_short ls ->
+  rebuild1 I_string (enc ls) = Ok (enc ls) /\ rebuild1 I_slice ls = Ok ls /\ rebuild1 I_dedupe ls = Ok ls.
+Proof. exact rebuild_identity. Qed.
+
 (* ScratchBuilder.Sort / New: for unique names the result is the canonical sorted list of the
    same map *)
 Theorem C39_sort_canonical : forall adds, nodup_names adds = true ->
@@ -126,10 +131,18 @@ Theorem C39_representations_equal_partial : forall ls, all_short ls -> nodup_nam
     (forall k, st_get d k = Ok (sl_get (sort_labels ls) k) /\ st_has d k = Ok (sl_has (sort_labels ls) k)).
 Proof. exact new_observations. Qed.
 
-(* FINDING: sizeWhenEncoded accepts a string of exactly 2^24 bytes, encodeSize writes only 24
-   bits: the encoded label set decodes to an empty string followed by garbage *)
-Theorem C39_len_2pow24_refuted : exists s e, zlen s = two24 /\ encode_str s = Ok e /\ decode_string e = Ok ([], s).
-Proof. exact len_2pow24_refuted. Qed.
+(* length limit of the stringlabels encoding: a name or value of 2^24 bytes or more is rejected
+   (panic "String too long to encode as label."), never encoded - so every label set that
+   exists in this build satisfies the hypothesis [all_short] of the theorems above.  Such
+   strings are outside the domain common to the three builds (slicelabels/dedupelabels accept them). *)
+Theorem C39_len_limit_rejected : forall s, two24 <= zlen s -> encode_str s = Panic.
+Proof. exact encode_str_too_long. Qed.
+
+(* The code before "fix: model/labels: stringlabels ... 2^24" violated this: sizeWhenEncoded
+   accepted a string of exactly 2^24 bytes, encodeSize wrote only 24 bits, and the encoded
+   label set decoded to an empty string followed by garbage. *)
+Theorem C39_len_2pow24_old_refuted : exists s e, zlen s = two24 /\ encode_str_old s = Ok e /\ decode_string e = Ok ([], s).
+Proof. exact len_2pow24_old_refuted. Qed.
 
 (* "for any sequence" is false without the ScratchBuilder protocol: Add; Assign(empty); Labels *)
 Theorem C39_any_sequence_refuted : exists ops tS tL,
